@@ -116,7 +116,7 @@ def gen_cases(tier, seed):
                       "kind": kind})
 
     # A: data-length grid around multiples of the fragment size
-    reps = 2 if quick else 10
+    reps = 4 if quick else 12
     rot = 0
     for rep in range(reps):
         for mx in MAXIMA:
@@ -132,7 +132,7 @@ def gen_cases(tier, seed):
                         add(DS_TYPES[(rot + 5 + i) % len(DS_TYPES)], mx, dl, b, "grid")
                 rot += 1
     # B: command-set grid — maxima derived from the command-set length, and the fixed maxima
-    cvars = 4 if quick else 24
+    cvars = 8 if quick else 32
     for t in MSG_TYPES:
         for v in range(cvars):
             for m in range(1, 5):
@@ -142,7 +142,7 @@ def gen_cases(tier, seed):
             for mx in MAXIMA:
                 add(t, mx, 0, "none", "cmdfixed")
     # C: seeded random
-    nrand = 6000 if quick else 120000
+    nrand = 14000 if quick else 150000
     for _ in range(nrand):
         t = rng.choice(MSG_TYPES)
         r = rng.random()
